@@ -7,7 +7,7 @@ from scapy.layers.inet6 import IPv6
 
 class QUICOutputbuilder:
     def __init__(self, decrypted_traffic, server_ip, client_ip, server_port, client_port, server_mac_address,
-                 client_mac_address, portmap, ipv6):
+                 client_mac_address, portmap, ipv6, keep_original_ports: bool = False):
         self.decrypted_traffic: list[Frame] = decrypted_traffic
         self.server_ip = server_ip
         self.client_ip = client_ip
@@ -19,7 +19,9 @@ class QUICOutputbuilder:
         self.ipv6 = ipv6
         self.out = []
 
-        if self.server_port in portmap.keys():
+        if keep_original_ports:
+            pass  # no -m option: the original server port is kept, as for TLS over TCP
+        elif self.server_port in portmap.keys():
             self.server_port = portmap[self.server_port]
         else:
             self.server_port = self.default_port
